@@ -357,11 +357,11 @@ def gen_services(rng, case, modelled=True):
         rows.append({'id': rid, 'src': src, 'dst': dst, 'trx': trx,
                      'mode': rng.choice([None, None] + modes),
                      'spacing': rng.choice([50, 75, 37.5, 62.5, 100, 50.0]),
-                     'power': rng.choice([None, 0, 1, -1.5, 2.25, 3]),
-                     'nbch': rng.choice([None, 80, 40.0, 96, 10.9]),
+                     'power': rng.choice([None, 0, 0.0, 1, -1.5, 2.25, 3]),
+                     'nbch': rng.choice([None, 80, 40.0, 96, 10.9, 0, 0.0]),
                      'disj': disj, 'path': route,
                      'loose': rng.choice([None, None, 'yes', 'Yes', 'YES', 'yes', 'no', 'No', 'y']),
-                     'bw': rng.choice([None, 100, 150.5, 400, 0])})
+                     'bw': rng.choice([None, 100, 150.5, 400, 0, 0.0])})
     # one service-level error in some sheets
     k = rng.random()
     r = rng.choice(rows)
@@ -1008,10 +1008,29 @@ def expected_side(l, which):
     return out
 
 
+def is_num(x):
+    return isinstance(x, (int, float, Fraction)) and not isinstance(x, bool) and x == x
+
+
 def close(a, b):
+    """both absent, or two numbers equal within 1e-9 relative; anything else (None for a number, a string, NaN) is a
+    difference, never an exception"""
     if a is None or b is None:
         return a is None and b is None
-    return abs(a - b) <= 1e-9 * max(1.0, abs(a))
+    if not is_num(a) or not is_num(b):
+        return False
+    return abs(a - b) <= 1e-9 * max(1.0, abs(a), abs(b))
+
+
+def safely(ctx, where, case, fn, *args):
+    """run one oracle; an exception inside it is a violation naming the workbook, never a crash of the check"""
+    try:
+        return fn(*args)
+    except Exception as e:      # the oracle met a shape of output it cannot even read: the output is wrong
+        import traceback
+        tb = traceback.extract_tb(e.__traceback__)[-1]
+        ctx.violation(f'oracle_exception:{where}', f'{type(e).__name__}: {str(e)[:160]} (harness/c20.py:{tb.lineno})', strip(case))
+        return []
 
 
 def oracle_topology(case, data):
@@ -1165,15 +1184,18 @@ def oracle_services(case, rows, out, designed_names):
             fails.append(('service_shape', f))
         if pr['source'] != f"trx {s['src']}" or pr['destination'] != f"trx {s['dst']}":
             fails.append(('service_endpoints', f"{pr['source']} {pr['destination']}"))
-        if not close(te['spacing'], s['spacing'] * 1e9):
-            fails.append(('service_units', f"spacing {te['spacing']} for {s['spacing']} GHz"))
+        if not close(te.get('spacing'), s['spacing'] * 1e9):
+            fails.append(('service_units', f"spacing {te.get('spacing')!r} for {s['spacing']} GHz"))
         expw = None if s['power'] is None else math.pow(10, s['power'] / 10) * 1e-3
-        if not close(te['output-power'], expw) and not (expw and abs(te['output-power'] - expw) <= 1e-9 * expw):
-            fails.append(('service_units', f"power {te['output-power']} for {s['power']} dBm"))
-        if te['max-nb-of-channel'] != (None if s['nbch'] is None else int(s['nbch'])):
-            fails.append(('service_units', f"channels {te['max-nb-of-channel']} for {s['nbch']}"))
-        if not close(te['path_bandwidth'], 0 if s['bw'] is None else s['bw'] * 1e9):
-            fails.append(('service_units', f"bandwidth {te['path_bandwidth']} for {s['bw']} Gbit/s"))
+        got = te.get('output-power')
+        if not (close(got, expw) or (is_num(got) and is_num(expw) and abs(got - expw) <= 1e-9 * abs(expw))):
+            fails.append(('service_units', f"power {got!r} W for {s['power']!r} dBm (expected {expw!r})"))
+        expn = None if s['nbch'] is None else int(s['nbch'])
+        gotn = te.get('max-nb-of-channel')
+        if gotn != expn or type(gotn) is not type(expn):
+            fails.append(('service_units', f"channels {gotn!r} for {s['nbch']!r}"))
+        if not close(te.get('path_bandwidth'), 0 if s['bw'] is None else s['bw'] * 1e9):
+            fails.append(('service_units', f"bandwidth {te.get('path_bandwidth')!r} for {s['bw']!r} Gbit/s"))
         strict = s['loose'] not in (None, '', 'yes', 'Yes', 'YES')
         for o in pr.get('explicit-route-objects', {}).get('route-object-include-exclude', []):
             if o['num-unnum-hop']['hop-type'] != ('STRICT' if strict else 'LOOSE'):
@@ -1430,7 +1452,7 @@ def run(ctx):
                     ctx.count('eqpt_rows', len(c['eqpts'] or []))
                     ctx.count('ila_declared_on_other_degree',
                               sum(1 for n in c['nodes'] if norm_type(n['type']) == 'ILA' and ftypes[n['city']] == 'ROADM'))
-                    for key, desc in oracle_topology(c, data):
+                    for key, desc in safely(ctx, 'topology', c, oracle_topology, c, data):
                         ctx.violation(key, desc, strip(c))
                     t0 = time.time()
                     try:
@@ -1457,7 +1479,7 @@ def run(ctx):
                         ctx.count('convert_file')
                     if c.get('services') is not None and raw is not None:
                         t0 = time.time()
-                        run_services(ctx, c, path, raw, net, svc_terms, svc_meta)
+                        safely(ctx, 'services_driver', c, run_services, ctx, c, path, raw, net, svc_terms, svc_meta)
                         TM.add('services', t0)
             elif rule is not None:
                 if exc is None:
@@ -1547,10 +1569,13 @@ def run(ctx):
             ctx.corr_break('corr:Sheet.read_service_sheet', 'model converts, gnpy raises', strip(c), impl=impl, model='converted')
             continue
         ms = [canon_req_model(decode_req(m), False) for m in json.loads(line)]
-        d = same([m for m, _ in ms], [canon_req_impl(pr) for pr in out['path-request']])
-        if not d:
-            d = same([[s[0], s[1]] for _, s in ms if s is not None],
-                     [[v['synchronization-id'], v['svec']['request-id-number']] for v in out.get('synchronization', [])])
+        try:
+            d = same([m for m, _ in ms], [canon_req_impl(pr) for pr in out['path-request']])
+            if not d:
+                d = same([[s[0], s[1]] for _, s in ms if s is not None],
+                         [[v['synchronization-id'], v['svec']['request-id-number']] for v in out.get('synchronization', [])])
+        except Exception as e:      # gnpy's document has not even the shape of a request list
+            d = f'unreadable output: {type(e).__name__}: {str(e)[:120]}'
         if d:
             ctx.corr_break('corr:Sheet.read_service_sheet', d, strip(c))
         else:
@@ -1593,10 +1618,13 @@ def run(ctx):
             ctx.corr_break('corr:Sheet.request_element', 'model builds, gnpy raises', {'service_row': s}, impl=res['exc'], model='built')
             continue
         mm, sync = canon_req_model(decode_req(m), True)
-        d = same(mm, canon_req_impl(res['pr'], res['loose']))
-        if not d:
-            isync = None if res['sync'] is None else [res['sync']['synchronization-id'], res['sync']['svec']['request-id-number']]
-            d = same(sync, isync, 'sync')
+        try:
+            d = same(mm, canon_req_impl(res['pr'], res['loose']))
+            if not d:
+                isync = None if res['sync'] is None else [res['sync']['synchronization-id'], res['sync']['svec']['request-id-number']]
+                d = same(sync, isync, 'sync')
+        except Exception as e:
+            d = f'unreadable output: {type(e).__name__}: {str(e)[:120]}'
         if d:
             ctx.corr_break('corr:Sheet.request_element', d, {'service_row': s})
     TM.add('coq_requests', t0)
@@ -1667,7 +1695,7 @@ def run_services(ctx, c, path, raw, net, svc_terms, svc_meta):
             ctx.count('service_sheet_rejected')
         return
     names = {n.uid for n in net.nodes()}
-    for key, desc in oracle_services(c, c['services'], out, names):
+    for key, desc in safely(ctx, 'services', c, oracle_services, c, c['services'], out, names):
         ctx.violation(key, desc, strip(c))
 
 
